@@ -18,6 +18,7 @@ type connInfo struct {
 	fn        *ssa.Function
 	reader    ssa.Value // the bufio.Reader
 	hdrCall   *ssa.Call
+	hdrArg    int // which argument of hdrCall is the reader (0 for headers.ReadHeaderInfo itself)
 	probe     *ssa.Call // first ReadFull in the loop
 	rest      *ssa.Call // second ReadFull
 	marker    string
@@ -32,14 +33,15 @@ type connInfo struct {
 func analyseHandleConn(w *World) *connInfo {
 	ci := &connInfo{}
 	{
-		// the function that calls headers.ReadHeaderInfo in the recorder
+		// the connection handler: the function of the recorder that runs the frame loop (calls MotionProcessor.Process
+		// inside a loop); the header may be read there or in a helper it calls
 		for _, fn := range w.RepoFuncs() {
 			if fn.Pkg == nil || fn.Pkg.Pkg.Path() != modPath+"/cmd/thermal-recorder" {
 				continue
 			}
 			for _, b := range fn.Blocks {
 				for _, in := range b.Instrs {
-					if c, ok := in.(*ssa.Call); ok && calleeName(c) == "headers.ReadHeaderInfo" {
+					if c, ok := in.(*ssa.Call); ok && calleeName(c) == "motion.MotionProcessor.Process" && inLoop(b) {
 						ci.fn = fn
 					}
 				}
@@ -69,6 +71,35 @@ func analyseHandleConn(w *World) *connInfo {
 				ci.resetCall = c
 			case "motion.MotionProcessor.Process":
 				ci.process = c
+			}
+		}
+	}
+	if ci.hdrCall == nil {
+		// header read in an unexported helper that is handed the reader: use that call, seen from the handler as
+		// "helper(reader)" (the reader argument is what the single-reader rule compares)
+		for _, b := range ci.fn.Blocks {
+			for _, in := range b.Instrs {
+				c, ok := in.(*ssa.Call)
+				if !ok {
+					continue
+				}
+				callee := c.Call.StaticCallee()
+				if callee == nil || callee.Pkg != ci.fn.Pkg || len(callee.Blocks) == 0 {
+					continue
+				}
+				for _, cb := range callee.Blocks {
+					for _, cin := range cb.Instrs {
+						if cc, ok := cin.(*ssa.Call); ok && calleeName(cc) == "headers.ReadHeaderInfo" {
+							// the helper must pass its own reader parameter on
+							for pi, p := range callee.Params {
+								if unwrapIface(cc.Call.Args[0]) == ssa.Value(p) && pi < len(c.Call.Args) {
+									ci.hdrCall = c
+									ci.hdrArg = pi
+								}
+							}
+						}
+					}
+				}
 			}
 		}
 	}
@@ -715,7 +746,7 @@ func checkHandleConnMarkerCI(w *World, r *Report, ci *connInfo, rule string) {
 // and the connection value is not read directly (bytes the header parse left in the buffer would be skipped and every
 // later frame boundary shifted, depending on how the stream was segmented).
 func checkSingleBufferedReader(w *World, r *Report, e *termEnv, rule, construct string, fn *ssa.Function, hdrCall *ssa.Call, reads []*ssa.Call) {
-	hdrRd := unwrapIface(hdrCall.Call.Args[0])
+	hdrRd := unwrapIface(hdrCall.Call.Args[hdrArgOf(hdrCall)])
 	same := len(reads) > 0
 	for _, c := range reads {
 		if unwrapIface(c.Call.Args[0]) != hdrRd {
@@ -956,4 +987,25 @@ func returnsErrorOf(fn, callee *ssa.Function) bool {
 		}
 	}
 	return n > 0
+}
+
+// hdrArgOf: which argument of the header-reading call is the reader: 0 for headers.ReadHeaderInfo, else the parameter of
+// the local helper that is passed on to it.
+func hdrArgOf(c *ssa.Call) int {
+	callee := c.Call.StaticCallee()
+	if callee == nil || calleeName(c) == "headers.ReadHeaderInfo" {
+		return 0
+	}
+	for _, cb := range callee.Blocks {
+		for _, cin := range cb.Instrs {
+			if cc, ok := cin.(*ssa.Call); ok && calleeName(cc) == "headers.ReadHeaderInfo" {
+				for pi, p := range callee.Params {
+					if unwrapIface(cc.Call.Args[0]) == ssa.Value(p) {
+						return pi
+					}
+				}
+			}
+		}
+	}
+	return 0
 }
